@@ -183,6 +183,17 @@ def forwarded_stale(m, w, leader=N1, via=N2, new=N3, beats=0):
     return w
 
 
+def vote_requested(m, w, cand=N1, voter=N2, other=N3):
+    """`cand` campaigns; its vote request to `voter` is in flight; `other` never hears `cand` (link down)
+    and is connected to `voter` only: it can become a second candidate of the same term."""
+    w = m.connect_all(w)
+    w = m.cut(w, cand, other)
+    w = m.do(w, ('T', cand, m.cfg.tmin + 0.001))
+    if not w.queue(cand, voter):
+        m.seed_shape_ok = False
+    return w
+
+
 def fig8(m, w):
     """Raft figure 8 prefix on 3 nodes. a=n1 led term 1 and holds X (index 3) that nobody else has;
     c=n3 led term 2 and holds its no-op (3) and Y (4) that nobody else has and is a follower again;
@@ -533,7 +544,7 @@ def lagging_newleader(m, w, k=1, j=2, lag=None, leader=N1, new=N2):
     return w
 
 
-def m_deposed(m, w, old=N1, new=N2, victim=N3, unnoticed=False):
+def m_deposed(m, w, old=N1, new=N2, victim=N3, unnoticed=False, op='rem'):
     """Membership variant of `deposed`: the cut-off old leader has appended an uncommitted
     'remove victim' (exactly one entry), the others elected `new` and committed a command."""
     w = steady(m, w, 0, old)
@@ -545,11 +556,50 @@ def m_deposed(m, w, old=N1, new=N2, victim=N3, unnoticed=False):
                 w = m.do(w, ('X', old, n, 'free'))
     else:
         w = m.isolate(w, old)
-    w = m.do(w, ('M', old, 'rem', victim, 'api', 'free'), ('Z', old))
+    # op='add': a request to add a node that is a member already (must be refused: no entry)
+    w = m.do(w, ('M', old, op, victim, 'api', 'free'), ('Z', old))
     rest = [n for n, _ in w.nodes if n != old and m.summary(w, n).alive]
     w = elect(m, w, new, only=rest)
     w = beat(m, w, new, only=rest, times=2)
     w = submit(m, w, new, 1, only=rest)
+    return w
+
+
+def m_readd_lateack(m, w, leader=N1, other=N2, slow=N3, x=N4):
+    """3 members + a spare node x. `slow` receives everything but its answers to the leader are held
+    back from the start (so the leader still has match index 0 for it). 'add x' was committed (x spawned,
+    caught up), then 'remove x' was committed and x shut down; `slow` holds both entries. The explorer
+    delivers the held answers: the first one pulls the leader's next index for `slow` back, and the
+    leader re-sends entries `slow` already stores, in small batches (membership entries one per message)."""
+    hold = ((slow, leader),)
+    hb = m.cfg.period + 0.001
+
+    def settle(w, want_commit, tries=4):
+        # heartbeats (each one adds one held answer of `slow`) only as long as needed
+        for _ in range(tries):
+            w = m.drain(w, skip_links=hold)
+            if m.summary(w, leader).commit >= want_commit and m.summary(w, slow).commit >= want_commit:
+                return w
+            w = m.do(w, ('T', leader, hb))
+        w = m.drain(w, skip_links=hold)
+        if m.summary(w, leader).commit < want_commit:
+            m.seed_shape_ok = False
+        return w
+    w = m.connect_all(w)
+    w = m.do(w, ('T', leader, m.cfg.tmin + 0.001))
+    w = settle(w, 2)
+    w = m.do(w, ('M', leader, 'add', x, 'api', 'free'), ('Z', leader))
+    w = m.do(w, ('Sp', x, leader))
+    for n in (leader, other, slow):
+        if m.can_reconnect(w, n, x):
+            w = m.do(w, ('R', n, x, 'free'))
+    w = settle(w, 3, tries=6)
+    w = m.do(w, ('M', leader, 'rem', x, 'api', 'free'), ('Z', leader))
+    w = settle(w, 4)
+    w = m.do(w, ('Sd', x))
+    s = m.summary(w, slow)
+    if not m.summary(w, leader).leader_flag or x in s.others or not w.queue(slow, leader):
+        m.seed_shape_ok = False
     return w
 
 
@@ -594,7 +644,7 @@ def candidates(m, w, who=(N1, N2)):
     return w
 
 
-SEEDS = dict(forwarded_stale=forwarded_stale, reelected_cache3=reelected_cache3, deposed_obs=deposed_obs, voted=voted, stalled_old_code=stalled_old_code, reelected5=reelected5, stale_reset5=stale_reset5, stale_vote5=stale_vote5, stale_snapshot=stale_snapshot, ahead_full=ahead_full, fig8_full=fig8_full, candidates=candidates, battery_lagsnap=battery_lagsnap, ahead=ahead, lagging_newleader=lagging_newleader, m_deposed=m_deposed, split=split, version_snap=version_snap, fresh=fresh, steady=steady, lagging=lagging, lagging_snap=lagging_snap, deposed=deposed,
+SEEDS = dict(m_readd_lateack=m_readd_lateack, vote_requested=vote_requested, forwarded_stale=forwarded_stale, reelected_cache3=reelected_cache3, deposed_obs=deposed_obs, voted=voted, stalled_old_code=stalled_old_code, reelected5=reelected5, stale_reset5=stale_reset5, stale_vote5=stale_vote5, stale_snapshot=stale_snapshot, ahead_full=ahead_full, fig8_full=fig8_full, candidates=candidates, battery_lagsnap=battery_lagsnap, ahead=ahead, lagging_newleader=lagging_newleader, m_deposed=m_deposed, split=split, version_snap=version_snap, fresh=fresh, steady=steady, lagging=lagging, lagging_snap=lagging_snap, deposed=deposed,
              deposed_snap=deposed_snap, deposed_twice=deposed_twice, pending=pending, reconnect_pipeline=reconnect_pipeline,
              forwarded=forwarded, fig8=fig8)
 
